@@ -84,8 +84,13 @@ def world_coq(wn):
     return f'(wfree {common.zlit(lb)} {d} {common.zlit(lb)} {common.zlit(lb + d * (w["npts"] - 1))})'
 
 
+def multi_key(c):
+    m = c.get('multi')
+    return '' if not m else f"/multi-{'profile' if m['profile'] else 'plain'}-ns0={m['ns0']}"
+
+
 def cfg_key(c):
-    return f"{c['world']}/{c['fields']}/{'cache' if c['cache'] else 'nocache'}/{c['interp']}/{c.get('gfp') or 'nogfp'}{'/reuse' if c.get('reuse') else ''}"
+    return f"{c['world']}/{c['fields']}/{'cache' if c['cache'] else 'nocache'}/{c['interp']}/{c.get('gfp') or 'nogfp'}{'/reuse' if c.get('reuse') else ''}{multi_key(c)}"
 
 
 def cfg_coq(c):
@@ -108,13 +113,19 @@ GFP_CFGS = [dict(world=w, fields=f, cache=ca, interp=i, gfp=g)
 REUSE_CFGS = [dict(c, reuse=True) for c in GFP_CFGS if c['gfp'] == 'plain' and c['cache']] + \
              [dict(world='small', fields='all', cache=True, interp='lin', gfp=None, reuse=True)]
 ALL_CFGS = ALL_CFGS + GFP_CFGS + REUSE_CFGS
+# two datasets: MultiDatasetTCLLHRatio over two single-dataset functions, plain (fit parameters ns and gamma) or wrapped
+# by NsProfileMultiDatasetTCLLHRatio (only ns floats, gamma fixed) with mean_n_sig_0 in {0, 3}
+MULTI_CFGS = [dict(world=w, fields=f, cache=ca, interp=i, gfp=(None if pr else g), multi=dict(profile=pr, ns0=n0))
+              for (pr, n0) in ((False, 0), (True, 0), (True, 3))
+              for (w, f, ca, i, g) in (('small', 'none', True, 'lin', None), ('mjd', 'all', True, 'par', None),
+                                       ('small', 'stat', False, 'lin', 'srcevt'), ('mjd', 'src', True, 'lin', None))]
 
 
 # ----------------------------------------------------------------- real objects
 class Rig:
     """the real skyllh objects for one configuration, built for source `src`"""
 
-    def __init__(self, c, src):
+    def __init__(self, c, src, shared=None, ds=0):
         from skyllh.core.config import Config
         from skyllh.core.trialdata import TrialDataManager
         from skyllh.core.parameters import Parameter, ParameterModelMapper, ParameterGrid, ParameterSet
@@ -129,17 +140,32 @@ class Rig:
         self.c = c
         w = WORLDS[c['world']]
         self.unit = w['unit']
-        self.cfg = cfg = Config()
-        self.trace = trace = []
+        self.ds = ds
         self.events_objs = {}
-        self.shgs = {k: self._mk_shg(k) for k in SOURCES}
         self.cur = src
-        shg = self.shgs[src]
-        p_ns = Parameter('ns', 10, 0, 1000)
-        p_g = Parameter('gamma', w['lb'] + w['delta'], w['lb'] - 10, w['lb'] + 100)
-        self.pmm = pmm = ParameterModelMapper(models=shg.source_list)
-        pmm.map_param(p_ns)
-        pmm.map_param(p_g, models=shg.source_list)
+        self.kept = []        # (site, returned ndarray, copy) of earlier calls: returned values are owned by the caller
+        if shared is None:
+            self.cfg = cfg = Config()
+            self.trace = trace = []
+            self.shgs = {k: self._mk_shg(k) for k in SOURCES}
+            shg = self.shgs[src]
+            p_ns = Parameter('ns', 10, 0, 1000)
+            fixed_gamma = bool(c.get('multi') and c['multi']['profile'])
+            if fixed_gamma:
+                p_g = Parameter('gamma', w['xs']['p'], isfixed=True)
+            else:
+                p_g = Parameter('gamma', w['lb'] + w['delta'], w['lb'] - 10, w['lb'] + 100)
+            self.p_g = p_g
+            self.pmm = pmm = ParameterModelMapper(models=shg.source_list)
+            pmm.map_param(p_ns)
+            pmm.map_param(p_g, models=shg.source_list)
+        else:
+            self.cfg = cfg = shared.cfg
+            self.trace = trace = shared.trace
+            self.shgs = shared.shgs
+            shg = self.shgs[src]
+            self.pmm = pmm = shared.pmm
+            self.p_g = p_g = shared.p_g
         self.tdm = tdm = TrialDataManager()
         nsrc, npre, nstat = FIELDS[c['fields']]
         if nsrc:
@@ -179,7 +205,7 @@ class Rig:
             return f
         pdfs = []
         for k, g in enumerate(gridvals):
-            data = np.linspace(1.0, 2.0, 11) * (1.0 + 0.1 * k) + 0.05 * np.sin(np.arange(11) * (k + 1))
+            data = np.linspace(1.0, 2.0, 11) * (1.0 + 0.1 * k + 0.07 * ds) + 0.05 * np.sin(np.arange(11) * (k + 1 + ds))
             pdfs.append(({'gamma': g}, SignalMultiDimGridPDF(
                 pmm=pmm, axis_binnings=[bx], pdf_grid_data=data,
                 norm_factor_func=norm(('P', int(round(g * unit))), k), cache_pd_values=c['cache'], cfg=cfg)))
@@ -195,7 +221,7 @@ class Rig:
             return orig(tdm=tdm, eventdata=eventdata, gridparams_recarray=gridparams_recarray, n_values=n_values, **kw)
         im.func = counting
         self.bkg = BackgroundMultiDimGridPDF(
-            pmm=pmm, axis_binnings=[bx], pdf_grid_data=np.linspace(2.0, 1.0, 11),
+            pmm=pmm, axis_binnings=[bx], pdf_grid_data=np.linspace(2.0, 1.0, 11) * (1.0 + 0.11 * ds),
             norm_factor_func=norm(('B',), 7), cache_pd_values=c['cache'], cfg=cfg)
         ratio = SigOverBkgPDFRatio(sig_pdf=self.sigset, bkg_pdf=self.bkg, cfg=cfg)
         self.llh = ZeroSigH0SingleDatasetTCLLHRatio(
@@ -210,21 +236,59 @@ class Rig:
         fm = SteadyPointlikeFFM(Phi0=1, energy_profile=PowerLawEnergyFluxProfile(E0=1e3, gamma=2, cfg=self.cfg), cfg=self.cfg)
         return SourceHypoGroupManager(SourceHypoGroup(sources=src, fluxmodel=fm, detsigyield_builders=[], sig_gen_method=None))
 
+    def events_for(self, name):
+        """the events array handed to initialize_trial for data set `name` (dataset self.ds of a multi-dataset rig
+        gets other values and another size)"""
+        from skyllh.core.storage import DataFieldRecordArray as DFRA
+        (_, xs, n) = DATA[name]
+        xs = [x * (1.0 - 0.08 * self.ds) + 0.3 * self.ds for x in xs] + [4.75] * self.ds
+
+        def mk():
+            return DFRA(np.array([(x,) for x in xs], dtype=[('x', np.float64)]))
+        if self.c.get('reuse'):
+            if name not in self.events_objs:
+                self.events_objs[name] = mk()
+            ev = self.events_objs[name]
+        else:
+            ev = mk()
+        return ev, np.array(xs, dtype=np.float64), n + 2 * self.ds
+
+    def init_tdm(self, name):
+        (ev, xs, n) = self.events_for(name)
+        self.tdm.initialize_trial(self.shgs[self.cur], self.pmm, ev, n_events=n)
+        self.cur_events = (ev, xs)
+
+    def probe_state(self, site):
+        """hardening probes evaluated after every operation: the caller's events array keeps its values; arrays
+        returned by earlier calls are unchanged"""
+        out = []
+        if getattr(self, 'cur_events', None) is not None:
+            (ev, xs) = self.cur_events
+            if not np.array_equal(np.asarray(ev['x']), xs):
+                out.append(('TrialDataManager.events', 'caller-array-modified', f'after {site}: the x column handed to initialize_trial changed'))
+        for (s0, arr, cp) in self.kept:
+            if not np.array_equal(arr, cp, equal_nan=True):
+                out.append((s0, 'returned-array-changed-later', f'after {site}: an array returned by an earlier {s0} call changed'))
+        return out
+
+    def keep(self, site, arr):
+        if isinstance(arr, np.ndarray):
+            for (s0, a0, _) in self.kept:
+                if np.shares_memory(a0, arr):
+                    self.shared_hits = getattr(self, 'shared_hits', []) + [(site, 'returned-array-shared', f'{site} returned an array sharing memory with one returned by an earlier {s0} call')]
+            self.kept = (self.kept + [(site, arr, arr.copy())])[-4:]
+
+    def sid(self):
+        return int(self.tdm.trial_data_state_id)
+
     def do(self, op):
         """returns the canonical observation of one operation"""
-        from skyllh.core.storage import DataFieldRecordArray as DFRA
         del self.trace[:]
         kind = op[0]
+        self.arg_damage = []
         try:
             if kind == 'init':
-                (_, xs, n) = DATA[op[1]]
-                if self.c.get('reuse'):
-                    if op[1] not in self.events_objs:
-                        self.events_objs[op[1]] = DFRA(np.array([(x,) for x in xs], dtype=[('x', np.float64)]))
-                    ev = self.events_objs[op[1]]
-                else:
-                    ev = DFRA(np.array([(x,) for x in xs], dtype=[('x', np.float64)]))
-                self.tdm.initialize_trial(self.shgs[self.cur], self.pmm, ev, n_events=n)
+                self.init_tdm(op[1])
                 self.llh.initialize_for_new_trial()
                 return ['none']
             if kind == 'src':
@@ -233,17 +297,160 @@ class Rig:
                 return ['none']
             if kind == 'eval':
                 x = WORLDS[self.c['world']]['xs'][op[1]]
-                (ll, grads) = self.llh.evaluate(np.array([float(NS[op[1]]), x]))
+                fp = np.array([float(NS[op[1]]), x])
+                fp0 = fp.copy()
+                (ll, grads) = self.llh.evaluate(fp)
+                if not np.array_equal(fp, fp0):
+                    self.arg_damage.append(('ZeroSigH0SingleDatasetTCLLHRatio.evaluate', 'argument-modified', 'fitparam_values changed by evaluate'))
+                self.keep('evaluate', grads)
                 return ['eval', 'Ok', [float(ll)] + [float(g) for g in grads]]
             if kind == 'ns2':
                 return ['ns2', 'Ok', [float(self.llh.calculate_ns_grad2(float(op[1])))]]
+            if kind == 'max':
+                from skyllh.core.random import RandomStateService
+                from skyllh.core.test_statistic import WilksTestStatistic
+                (llmax, fpmax, status) = self.llh.maximize(rss=RandomStateService(seed=1))
+                ts = WilksTestStatistic()(pmm=self.pmm, log_lambda=llmax, fitparam_values=fpmax)
+                self.keep('maximize', fpmax)
+                return ['max', 'Ok', [float(llmax)] + [float(v) for v in fpmax] + [float(ts)]]
         except Exception as ex:   # the exception class is the observation
-            return [kind if kind in ('eval', 'ns2') else 'none', 'Err', type(ex).__name__]
+            return [kind if kind in ('eval', 'ns2', 'max') else 'none', 'Err', type(ex).__name__]
         raise ValueError(op)
+
+
+class MRig:
+    """two datasets: MultiDatasetTCLLHRatio over two single-dataset Rigs sharing the mapper, the sources and the trace,
+    optionally wrapped by NsProfileMultiDatasetTCLLHRatio"""
+
+    def __init__(self, c, src):
+        from skyllh.core.detsigyield import DetSigYield
+        from skyllh.core.llhratio import MultiDatasetTCLLHRatio, NsProfileMultiDatasetTCLLHRatio
+        from skyllh.core.minimizer import Minimizer, LBFGSMinimizerImpl
+        from skyllh.core.services import (DatasetSignalWeightFactorsService, DetSigYieldService,
+                                          SrcDetSigYieldWeightsService)
+        self.c = c
+        m = c['multi']
+        self.r1 = Rig(c, src)
+        self.r2 = Rig(c, src, shared=self.r1, ds=1)
+        self.rigs = (self.r1, self.r2)
+        self.trace = self.r1.trace
+        self.cur = src
+        self.pmm = self.r1.pmm
+        self.shgs = self.r1.shgs
+        cfg = self.r1.cfg
+
+        class ConstDetSigYield(DetSigYield):
+            def __init__(self, j):
+                self._j = j
+
+            def sources_to_recarray(self, sources):
+                rec = np.empty((len(sources),), dtype=[('dec', np.float64)])
+                for (i, s_) in enumerate(sources):
+                    rec[i]['dec'] = s_.dec
+                return rec
+
+            def __call__(self, src_recarray, src_params_recarray):
+                return (1.0 + 2.0 * self._j + src_recarray['dec'], dict())
+
+        class Svc(DetSigYieldService):
+            def construct_detsigyield_array(self, ppbar=None):
+                arr = np.empty((2, self._shg_mgr.n_src_hypo_groups), dtype=object)
+                for j in range(2):
+                    for g in range(self._shg_mgr.n_src_hypo_groups):
+                        arr[j, g] = ConstDetSigYield(j)
+                return arr
+        self.dsy = dsy = Svc(shg_mgr=self.shgs[src], dataset_list=[], data_list=[])
+        w1 = SrcDetSigYieldWeightsService(detsigyield_service=dsy)
+        w2 = DatasetSignalWeightFactorsService(src_detsigyield_weights_service=w1)
+        self.multi = MultiDatasetTCLLHRatio(
+            pmm=self.pmm, minimizer=Minimizer(LBFGSMinimizerImpl(cfg=cfg)), src_detsigyield_weights_service=w1,
+            ds_sig_weight_factors_service=w2, llhratio_list=[self.r1.llh, self.r2.llh], cfg=cfg)
+        if m['profile']:
+            self.llh = NsProfileMultiDatasetTCLLHRatio(
+                pmm=self.pmm, minimizer=Minimizer(LBFGSMinimizerImpl(cfg=cfg)), mean_n_sig_0=float(m['ns0']),
+                llhratio=self.multi, cfg=cfg)
+        else:
+            self.llh = self.multi
+        self.kept = []
+
+    def sid(self):
+        return (self.r1.sid(), self.r2.sid())
+
+    def probe_state(self, site):
+        out = self.r1.probe_state(site) + self.r2.probe_state(site)
+        for (s0, arr, cp) in self.kept:
+            if not np.array_equal(arr, cp, equal_nan=True):
+                out.append((s0, 'returned-array-changed-later', f'after {site}: an array returned by an earlier {s0} call changed'))
+        return out
+
+    def fitparams(self, name):
+        w = WORLDS[self.c['world']]
+        if self.c['multi']['profile']:
+            return np.array([float(NS[name])])
+        return np.array([float(NS[name]), w['xs'][name]])
+
+    def do(self, op):
+        del self.trace[:]
+        kind = op[0]
+        self.arg_damage = []
+        cls = type(self.llh).__name__
+        try:
+            if kind == 'init':
+                for r in self.rigs:
+                    r.cur = self.cur
+                    r.init_tdm(op[1])
+                self.llh.initialize_for_new_trial()
+                return ['init', 'Ok']
+            if kind == 'src':
+                self.cur = op[1]
+                # Analysis.change_shg_mgr: the detector signal yield service first, then the LLH ratio function
+                self.dsy.change_shg_mgr(self.shgs[op[1]])
+                self.llh.change_shg_mgr(self.shgs[op[1]])
+                return ['none']
+            if kind == 'eval':
+                fp = self.fitparams(op[1])
+                fp0 = fp.copy()
+                (ll, grads) = self.llh.evaluate(fp)
+                if not np.array_equal(fp, fp0):
+                    self.arg_damage.append((cls + '.evaluate', 'argument-modified', 'fitparam_values changed by evaluate'))
+                self.kept = (self.kept + [(cls + '.evaluate', grads, grads.copy())])[-4:]
+                return ['eval', 'Ok', [float(ll)] + [float(g) for g in grads]]
+            if kind == 'ns2':
+                fp = self.fitparams('p')
+                fp[0] = float(op[1])
+                rec = self.pmm.create_src_params_recarray(fp)
+                v = self.llh.calculate_ns_grad2(ns=float(op[1]), ns_pidx=0, src_params_recarray=rec)
+                return ['ns2', 'Ok', [float(v)]]
+            if kind == 'max':
+                from skyllh.core.random import RandomStateService
+                from skyllh.core.test_statistic import WilksTestStatistic
+                (llmax, fpmax, status) = self.llh.maximize(rss=RandomStateService(seed=1))
+                ts = WilksTestStatistic()(pmm=self.pmm, log_lambda=llmax, fitparam_values=fpmax)
+                return ['max', 'Ok', [float(llmax)] + [float(v) for v in fpmax] + [float(ts)]]
+        except Exception as ex:
+            return [kind if kind in ('eval', 'ns2', 'max', 'init') else 'none', 'Err', type(ex).__name__]
+        raise ValueError(op)
+
+
+def make_rig(c, src):
+    return MRig(c, src) if c.get('multi') else Rig(c, src)
 
 
 def op_coq(c, op):
     w = WORLDS[c['world']]
+    m = c.get('multi')
+    if m:
+        x = lambda name: int(round(w['xs']['p' if m['profile'] else name] * w['unit']))   # noqa: E731
+        if op[0] == 'init':
+            d = DATA[op[1]][0]
+            return f'MInit W {d * 10} {d * 10 + 1}'
+        if op[0] == 'src':
+            return f'MSrc W {SOURCES[op[1]][0]}'
+        if op[0] == 'eval':
+            return f'MEval W {NS[op[1]]} {x(op[1])}'
+        if op[0] == 'ns2':
+            return f'MNs2 W {op[1]}'
+        raise ValueError(op)
     if op[0] == 'init':
         return f'InitTrial W {DATA[op[1]][0]}'
     if op[0] == 'src':
@@ -258,16 +465,29 @@ def op_coq(c, op):
 def history_coq(c, hist):
     ops = '; '.join(op_coq(c, o) for o in hist)
     cc = cfg_coq(c)
+    m = c.get('multi')
+    if m:
+        w = WORLDS[c['world']]
+        mw = world_coq(c['world']).replace('(wfree', '(mwfree')
+        mc = f"(mkmcfg {'true' if m['profile'] else 'false'} {m['ns0']} {int(round(w['xs']['p'] * w['unit']))})"
+        return (f'let W := {world_coq(c["world"])} in let MW := {mw} in '
+                f'mrun W {cc} MW {mc} (minit W {cc} MW {SOURCES[1][0]}) [{ops}]')
     return f'let W := {world_coq(c["world"])} in run W {cc} (init W {cc} {SOURCES[1][0]}) [{ops}]'
 
 
 def canon_model_step(v):
     """(obs, trace, sid) as printed by Coq -> canonical"""
     (ob, tr, sid) = v
-    if ob[0] == 'ONone':
+    if isinstance(ob, str):
+        ob = (ob,)
+    head = ob[0]
+    if head in ('ONone', 'MNone'):
         o = ['none']
+    elif head == 'MInitO':
+        r = ob[-1]
+        o = ['init', 'Ok'] if r[0] == 'Ok' else ['init', 'Err', r[1]]
     else:
-        kind = 'eval' if ob[0] == 'OEval' else 'ns2'
+        kind = 'eval' if head in ('OEval', 'MEvalO') else 'ns2'
         r = ob[-1]
         if r[0] == 'Ok':
             o = [kind, 'Ok', tuple(r[1])]
@@ -283,7 +503,7 @@ def canon_model_step(v):
             t.append(('F', e[1]))
         else:
             t.append(('P', e[1]))
-    return o, t, sid
+    return o, t, (tuple(sid) if isinstance(sid, (tuple, list)) else sid)
 
 
 def close(a, b):
@@ -293,27 +513,19 @@ def close(a, b):
 
 # ----------------------------------------------------------------- fresh-object oracle
 class Oracle:
-    """what freshly built objects return for the minimal history"""
+    """what freshly built objects return for a minimal history"""
 
     def __init__(self):
         self.memo = {}
 
-    def eval(self, c, src, d, x):
-        k = (cfg_key(c), src, d, 'e', x)
+    def replay(self, c, src, ops):
+        k = (cfg_key(c), src, tuple(ops))
         if k not in self.memo:
-            r = Rig(c, src)
-            r.do(('init', d))
-            self.memo[k] = r.do(('eval', x))
-        return self.memo[k]
-
-    def ns2(self, c, src, d, x, n):
-        k = (cfg_key(c), src, d, 'n', x, n)
-        if k not in self.memo:
-            r = Rig(c, src)
-            r.do(('init', d))
-            if x is not None:
-                r.do(('eval', x))
-            self.memo[k] = r.do(('ns2', n))
+            r = make_rig(c, src)
+            ob = None
+            for o in ops:
+                ob = r.do(o)
+            self.memo[k] = ob
         return self.memo[k]
 
 
@@ -321,57 +533,139 @@ def same_obs(a, b):
     if a[:2] != b[:2]:
         return False
     if a[1] == 'Err':
-        return a[2] == b[2]
+        # a second derivative requested without an evaluation raises: which exception class depends on which object
+        # notices first (service without weights / function without ns-gradients); both are "raises"
+        return a[2] == b[2] or a[0] == 'ns2'
+    if len(a) < 3:
+        return True
     return close(a[2], b[2])
 
 
-def run_history(ctx, c, hist, oracle, groups, model_exprs, checks):
-    """run one history on freshly built real objects, evaluate the predicate,
-    queue the model expression"""
-    rig = Rig(c, 1)
-    cur_src, data, src_at_init, last_ok, last_failed = 1, None, None, None, False
-    steps = []
-    for i, op in enumerate(hist):
+def llh_name(c):
+    m = c.get('multi')
+    if not m:
+        return 'ZeroSigH0SingleDatasetTCLLHRatio'
+    return 'NsProfileMultiDatasetTCLLHRatio' if m['profile'] else 'MultiDatasetTCLLHRatio'
+
+
+class Tracker:
+    """one set of real objects driven op by op; after every op the property predicate (same suffix history on freshly
+    built objects gives identical numbers) and the generic hardening probes are evaluated"""
+
+    def __init__(self, ctx, c, hist, oracle, tag=''):
+        self.ctx, self.c, self.hist, self.oracle, self.tag = ctx, c, hist, oracle, tag
+        self.rig = make_rig(c, 1)
+        self.cur_src, self.data, self.src_at_init = 1, None, None
+        self.last_ok, self.last_failed, self.unknown_nsg = None, False, False
+        self.steps = []
+        self.i = 0
+
+    def case(self):
+        return {'cfg': self.c, 'history': [list(o) for o in self.hist], 'step': self.i, 'mode': self.tag}
+
+    def viol(self, site, kind, detail, ob=None, want=None, pred=None):
+        self.ctx.violation(site, kind, f'step {self.i} of {self.hist}{self.tag}: {detail}', case=self.case(), impl=ob,
+                           model=want, predicate=pred)
+
+    def step(self):
+        ctx, c, op = self.ctx, self.c, self.hist[self.i]
+        rig = self.rig
+        name = llh_name(c)
         ob = rig.do(op)
-        steps.append((ob, list(rig.trace), int(rig.tdm.trial_data_state_id)))
+        self.steps.append((ob, list(rig.trace), rig.sid()))
+        in_protocol = self.data is not None and self.src_at_init == self.cur_src
         if op[0] == 'init':
-            data, src_at_init, last_ok, last_failed = op[1], cur_src, None, False
+            self.data, self.src_at_init = op[1], self.cur_src
+            self.last_ok, self.last_failed, self.unknown_nsg = None, False, False
+            if c.get('multi') and c['multi']['profile'] and ob[:2] == ['init', 'Ok']:
+                self.last_ok = '@init'      # the ns-profile function evaluates the null-hypothesis point
         elif op[0] == 'src':
-            cur_src = op[1]
-        elif op[0] == 'eval':
-            ctx.count('eval:' + op[1])
-            if ob[1] == 'Ok':
-                last_ok, last_failed = op[1], False
+            self.cur_src = op[1]
+        elif op[0] in ('eval', 'max'):
+            ctx.count(op[0] + ':' + (op[1] if op[0] == 'eval' else ''))
+            if op[0] == 'max':
+                self.unknown_nsg = True
+            elif ob[1] == 'Ok':
+                self.last_ok, self.last_failed, self.unknown_nsg = op[1], False, False
             else:
-                last_failed = True
+                self.last_failed = True
                 ctx.count('eval-raises:' + ob[2])
-            if data is not None and src_at_init == cur_src:
-                want = oracle.eval(c, cur_src, data, op[1])
+            if in_protocol:
+                want = self.oracle.replay(c, self.cur_src, [('init', self.data), op])
                 if not same_obs(ob, want):
-                    ctx.violation('ZeroSigH0SingleDatasetTCLLHRatio.evaluate', 'depends-on-history',
-                                  f'step {i} of {hist}: used objects give {ob}, freshly built objects give {want}',
-                                  case={'cfg': c, 'history': [list(o) for o in hist], 'step': i}, impl=ob, model=want,
-                                  predicate='evaluate after a history == evaluate on freshly built objects '
-                                            '[init trial d; evaluate p]')
+                    what = 'evaluate' if op[0] == 'eval' else 'maximize'
+                    self.viol(f'{name}.{what}', 'depends-on-history',
+                              f'used objects give {ob}, freshly built objects give {want}', ob, want,
+                              f'{what} after a history == {what} on freshly built objects [init trial d; {what}]')
             else:
                 ctx.count('eval-outside-protocol')
         elif op[0] == 'ns2':
             ctx.count('ns2')
-            if data is None:
-                want = ['ns2', 'Err', 'RuntimeError']
-            elif src_at_init != cur_src or last_failed:
-                want = None
+            want = None
+            if self.data is None:
+                if not c.get('multi'):
+                    want = ['ns2', 'Err', 'RuntimeError']
+            elif not in_protocol or self.last_failed or self.unknown_nsg:
                 ctx.count('ns2-outside-guard')
             else:
-                want = oracle.ns2(c, cur_src, data, last_ok, op[1])
+                pre = [('init', self.data)] + ([('eval', self.last_ok)] if self.last_ok not in (None, '@init') else [])
+                want = self.oracle.replay(c, self.cur_src, pre + [op])
             if want is not None and not same_obs(ob, want):
-                ctx.violation('ZeroSigH0SingleDatasetTCLLHRatio.calculate_ns_grad2', 'depends-on-history',
-                              f'step {i} of {hist}: used objects give {ob}, freshly built objects give {want}',
-                              case={'cfg': c, 'history': [list(o) for o in hist], 'step': i}, impl=ob, model=want,
-                              predicate='calculate_ns_grad2 after a history == on freshly built objects '
-                                        '[init trial d; evaluate p; calculate_ns_grad2]')
-    model_exprs.append(history_coq(c, hist))
-    checks.append((c, hist, steps))
+                self.viol(f'{name}.calculate_ns_grad2', 'depends-on-history',
+                          f'used objects give {ob}, freshly built objects give {want}', ob, want,
+                          'calculate_ns_grad2 after a history == on freshly built objects '
+                          '[init trial d; evaluate p; calculate_ns_grad2]')
+        # hardening probes: arguments are inputs, returned values are owned by the caller
+        rigs = rig.rigs if c.get('multi') else (rig,)
+        damage = list(getattr(rig, 'arg_damage', []))
+        for r in rigs:
+            damage += getattr(r, 'shared_hits', [])
+            r.shared_hits = []
+        for (site, kind, detail) in damage + rig.probe_state(op[0]):
+            self.viol(site, kind, detail)
+        self.i += 1
+
+    def finish(self):
+        """repeat probe: the last evaluation repeated on the same objects gives the same numbers"""
+        if self.hist and self.hist[-1][0] == 'eval' and self.steps[-1][0][1] == 'Ok':
+            ob = self.rig.do(self.hist[-1])
+            if not same_obs(ob, self.steps[-1][0]):
+                self.i -= 1
+                self.viol(f'{llh_name(self.c)}.evaluate', 'repeat-differs',
+                          f'the same evaluation repeated gives {ob} after {self.steps[-1][0]}', ob, self.steps[-1][0],
+                          'two identical calls in a row give identical results')
+                self.i += 1
+
+
+def model_comparable(hist):
+    return all(o[0] != 'max' for o in hist)
+
+
+def run_history(ctx, c, hist, oracle, groups, model_exprs, checks):
+    """run one history on freshly built real objects, evaluate the predicates, queue the model expression"""
+    t = Tracker(ctx, c, hist, oracle)
+    for _ in hist:
+        t.step()
+    t.finish()
+    if model_comparable(hist):
+        model_exprs.append(history_coq(c, hist))
+        checks.append((c, hist, t.steps))
+
+
+def run_pair(ctx, ca, ha, cb, hb, oracle, model_exprs, checks):
+    """two-instances probe: two sets of objects are built BEFORE first use and driven alternately; each must behave
+    like its own fresh twin (and like its own model run)"""
+    ta = Tracker(ctx, ca, ha, oracle, tag=' [interleaved with another instance]')
+    tb = Tracker(ctx, cb, hb, oracle, tag=' [interleaved with another instance]')
+    for k in range(max(len(ha), len(hb))):
+        if k < len(ha):
+            ta.step()
+        if k < len(hb):
+            tb.step()
+    for (t, c, h) in ((ta, ca, ha), (tb, cb, hb)):
+        if model_comparable(h):
+            model_exprs.append(history_coq(c, h))
+            checks.append((c, h, t.steps))
 
 
 def compare(ctx, checks, vals, groups):
@@ -397,7 +691,7 @@ def compare(ctx, checks, vals, groups):
                 ctx.disagree('cache.result_kind', dict(case, step=i), ob, mo[:2] + ([mo[2]] if mo[1:2] == ['Err'] else []),
                              'value / exception differs')
                 break
-            if ob[0] != 'none' and ob[1] == 'Ok':
+            if ob[0] in ('eval', 'ns2') and ob[1] == 'Ok':
                 gk = (cfg_key(c), ob[0], mo[2])
                 if gk in groups:
                     if not close(groups[gk][0], ob[2]):
@@ -499,15 +793,42 @@ def random_history(rng):
     return h
 
 
+MAX_HISTORIES = [
+    [('init', 'A'), ('max',)],
+    [('init', 'A'), ('max',), ('init', 'B'), ('max',)],
+    [('init', 'A'), ('eval', 'p'), ('max',), ('eval', 'p'), ('init', 'C'), ('max',)],
+    [('init', 'B'), ('max',), ('src', 2), ('init', 'B'), ('max',), ('eval', 'q')],
+    [('init', 'A'), ('eval', 'q'), ('init', 'A'), ('max',), ('max',)],
+]
+MULTI_HISTORIES = [
+    [('init', 'A'), ('eval', 'p'), ('init', 'B'), ('eval', 'p'), ('ns2', 5)],
+    [('init', 'A'), ('init', 'B'), ('eval', 'p')],
+    [('init', 'A'), ('eval', 'q'), ('init', 'C'), ('eval', 'q'), ('eval', 'p')],
+    [('init', 'B'), ('ns2', 5), ('eval', 'r'), ('ns2', 5), ('init', 'A'), ('ns2', 5)],
+    [('init', 'A'), ('eval', 'p'), ('src', 2), ('init', 'A'), ('eval', 'p')],
+    [('eval', 'p'), ('ns2', 5), ('init', 'C'), ('eval', 'far'), ('ns2', 6)],
+]
+
+
 def gen_cases(ctx):
+    """list of ('one', cfg, history) and ('pair', cfgA, histA, cfgB, histB)"""
     rng = ctx.rng
     cases = []
     for c in ALL_CFGS:
         for h in corpus_histories():
-            cases.append((c, h))
+            cases.append(('one', c, h))
+    for c in MULTI_CFGS:
+        for h in MULTI_HISTORIES + corpus_histories()[:4] + MAX_HISTORIES[:3]:
+            cases.append(('one', c, h))
+    # maximisation result and test statistic (predicate only: the model has no minimizer)
+    singles = [c for c in ALL_CFGS if not c.get('reuse')]
+    for k, h in enumerate(MAX_HISTORIES):
+        for c in (singles[(7 * k) % len(singles)], singles[(7 * k + 13) % len(singles)], singles[(7 * k + 40) % len(singles)]):
+            cases.append(('one', c, h))
     if ctx.thorough():
-        # exhaustive: all histories up to length 4 over the full alphabet (9 ops) for 4 configurations,
-        # all histories of length 5 over the reduced alphabet (6 ops) for 2 configurations
+        # exhaustive: all histories up to length 4 over the full alphabet (9 ops) for 6 configurations,
+        # all histories of length 5 over the reduced alphabet (6 ops) for 2 configurations, all histories up to
+        # length 4 over the reduced alphabet for the two-dataset / ns-profile configurations
         def cf(w, f, ca, i, g=None):
             return dict(world=w, fields=f, cache=ca, interp=i, gfp=g)
         for c in (cf('small', 'none', True, 'lin'), cf('mjd', 'none', True, 'par'),
@@ -515,20 +836,37 @@ def gen_cases(ctx):
                   cf('small', 'none', True, 'lin', 'srcevt'), cf('mjd', 'all', True, 'par', 'plain')):
             for n in (1, 2, 3, 4):
                 for h in itertools.product(ALPHABET, repeat=n):
-                    cases.append((c, list(h)))
+                    cases.append(('one', c, list(h)))
         for c in (cf('mjd', 'src', True, 'lin'), cf('small', 'stat', False, 'par')):
             for h in itertools.product(SMALL_ALPHABET, repeat=5):
-                cases.append((c, list(h)))
-        nrand = 5000
+                cases.append(('one', c, list(h)))
+        for c in MULTI_CFGS[:6]:
+            for n in (2, 3, 4):
+                for h in itertools.product(SMALL_ALPHABET, repeat=n):
+                    cases.append(('one', c, list(h)))
+        nrand, nmulti, npair = 5000, 1500, 600
     else:
-        nrand = 900
+        nrand, nmulti, npair = 800, 160, 60
     for _ in range(nrand):
-        cases.append((rng.choice(ALL_CFGS), random_history(rng)))
+        h = random_history(rng)
+        if rng.random() < 0.06:
+            h = h[:4] + [('max',)]
+        cases.append(('one', rng.choice(ALL_CFGS), h))
+    for _ in range(nmulti):
+        h = [o for o in random_history(rng) if o != ('eval', 'out')]
+        if rng.random() < 0.15:
+            h = h[:4] + [('max',)]
+        cases.append(('one', rng.choice(MULTI_CFGS), h))
+    # two instances built before first use, driven alternately
+    for _ in range(npair):
+        ca = rng.choice(ALL_CFGS + MULTI_CFGS)
+        cb = dict(rng.choice(ALL_CFGS)) if rng.random() < 0.6 else dict(ca)
+        cases.append(('pair', ca, random_history(rng), cb, random_history(rng)))
     return cases
 
 
 class _MiniCtx:
-    """what run_history needs of a Ctx, picklable results (worker processes)"""
+    """what the Tracker needs of a Ctx, picklable results (worker processes)"""
 
     def __init__(self):
         self.stats = {}
@@ -543,10 +881,13 @@ class _MiniCtx:
 
 def _worker(chunk):
     mc, oracle, out = _MiniCtx(), Oracle(), []
-    for (c, h) in chunk:
+    for case in chunk:
         me, ck = [], []
-        run_history(mc, c, h, oracle, None, me, ck)
-        out.append(ck[0][2])
+        if case[0] == 'one':
+            run_history(mc, case[1], case[2], oracle, None, me, ck)
+        else:
+            run_pair(mc, case[1], case[2], case[3], case[4], oracle, me, ck)
+        out.extend(ck)
     return out, mc.stats, mc.viol, len(oracle.memo)
 
 
@@ -554,32 +895,36 @@ def run(ctx):
     groups = {}
     cases = gen_cases(ctx)
     uniq, seen = [], set()
-    for (c, h) in cases:
-        key = (cfg_key(c), tuple(h))
-        if key in seen:
+    for case in cases:
+        key = tuple((cfg_key(x) if isinstance(x, dict) else tuple(x)) for x in case[1:])
+        if (case[0],) + key in seen:
             continue
-        seen.add(key)
-        uniq.append((c, h))
-        ctx.case({'cfg': cfg_key(c), 'h': h}, nontrivial=any(o[0] == 'eval' for o in h))
-        ctx.count('cfg:' + cfg_key(c))
-        ctx.count('len:%d' % len(h))
-    ctx.sample({'cfg': cfg_key(uniq[-1][0]), 'history': uniq[-1][1]})
-    ctx.sample({'cfg': cfg_key(uniq[0][0]), 'history': uniq[0][1]})
+        seen.add((case[0],) + key)
+        uniq.append(case)
+        for k in range(1, len(case), 2):
+            (c, h) = (case[k], case[k + 1])
+            ctx.case({'cfg': cfg_key(c), 'h': h, 'mode': case[0]}, nontrivial=any(o[0] in ('eval', 'max') for o in h))
+            ctx.count('cfg:' + cfg_key(c))
+            ctx.count('len:%d' % len(h))
+        ctx.count('mode:' + case[0])
+    ctx.sample({'cfg': cfg_key(uniq[-1][1]), 'history': uniq[-1][2]})
+    ctx.sample({'cfg': cfg_key(uniq[0][1]), 'history': uniq[0][2]})
+    ctx.sample({'cfg': cfg_key(MULTI_CFGS[-1]), 'history': MULTI_HISTORIES[0]})
     # the implementation side: worker processes (each history builds its own objects)
-    nproc = 6 if ctx.thorough() else 2
-    size = max(50, min(600, len(uniq) // (nproc * 4) + 1))
+    nproc = 6 if ctx.thorough() else 3
+    size = max(40, min(600, len(uniq) // (nproc * 4) + 1))
     chunks = [uniq[i:i + size] for i in range(0, len(uniq), size)]
     model_exprs, checks, nref = [], [], 0
     import concurrent.futures
     import multiprocessing
     with concurrent.futures.ProcessPoolExecutor(max_workers=nproc, mp_context=multiprocessing.get_context('fork')) as ex:
-        for chunk, (out, stats, viol, nmemo) in zip(chunks, ex.map(_worker, chunks)):
+        for (out, stats, viol, nmemo) in ex.map(_worker, chunks):
             nref += nmemo
             for k, v in stats.items():
                 ctx.count(k, v)
             for (site, kind, detail, kw) in viol:
                 ctx.violation(site, kind, detail, **kw)
-            for (c, h), steps in zip(chunk, out):
+            for (c, h, steps) in out:
                 model_exprs.append(history_coq(c, h))
                 checks.append((c, h, steps))
     interp_multi(ctx)
@@ -609,5 +954,8 @@ def replay(ctx, rp):
     run_history(ctx, cfgd, hist, oracle, groups, model_exprs, checks)
     if c.get('other'):
         run_history(ctx, cfgd, [tuple(o) for o in c['other']], oracle, groups, model_exprs, checks)
-    if ctx.model_ok:
+    if 'interleaved' in (c.get('mode') or ''):
+        ctx.notes.append('the violation was seen while another instance was driven alternately: re-running the pair stream')
+        run(ctx)
+    elif ctx.model_ok and model_exprs:
         compare(ctx, checks, common.coq_eval('c06r', IMPORTS, model_exprs), groups)
